@@ -242,6 +242,7 @@ for name, (f, req) in COMP1.items():
     ops[name] = {'arity': 1, 'composite': True, 'e': {'f': pr(f), 'f1': pr(sp.diff(f, x)), 'f2': pr(sp.diff(f, x, 2))}}
 for name, (f, req) in COMP2.items():
     ops[name] = {'arity': 2, 'composite': True, 'e': {'f': pr(f), 'fx': pr(sp.diff(f, x)), 'fy': pr(sp.diff(f, y)), 'fxx': pr(sp.diff(f, x, 2)), 'fxy': pr(sp.diff(f, x, y)), 'fyy': pr(sp.diff(f, y, 2))}}
+ops['Abs'] = {'arity': 1, 'composite': True, 'e': {'f': 'abs(x)', 'f1': 'ite(x > 0, 1, ite(x < 0, 0 - 1, 0))', 'f2': '0'}}
 json.dump(ops, open('/verif/spec/ops.json', 'w'), indent=1, sort_keys=True)
 
 # --- refinement of the interface model functions by every covered implementation --------------
